@@ -202,7 +202,8 @@ fn base_text(marker: u8) -> String {
     format!("script;\n\nfn main() {{\n}}\n\nfn v{marker}() {{\n}}\n")
 }
 fn broken_text(marker: u8) -> String {
-    format!("script;\n// BROKEN\nfn main() {{\n}}\n\nfn v{marker}( {{\n")
+    // no module kind: the compiler returns no program at all (ParseError ExpectedModuleKind)
+    format!("// BROKEN\nfn main() {{\n}}\n\nfn v{marker}() {{\n}}\n")
 }
 fn markers_in(text: &str) -> Vec<String> {
     let mut v = vec![];
